@@ -189,7 +189,7 @@ TRANSLATED = {
     'C13': ['Cache.Set', 'Cache.Get', 'Cache.Delete', 'Cache.Cleanup', 'Cache.evictOldest', 'Cache.removeItem'],
     'C14': ['VerifyToken', 'performPreVerificationChecks', 'cacheVerifiedToken', 'RevokeToken', 'TokenCache.Set', 'TokenCache.Get', 'TokenCache.Delete', 'the six methods of cache.go', 'VerifyJWTSignatureAndClaims'],
     'C15': ['isLocalRedirectTarget', 'buildFullURL', 'determineScheme', 'determineHost', 'Config.Validate'],
-    'C18': ['splitIntoChunks'],
+    'C18': ['splitIntoChunks', 'SessionManager.getSessionOptions'],
     'C19': ['VerifyToken', 'performPreVerificationChecks', 'Config.Validate'],
     'C20': ['discoverProviderMetadata', 'MetadataCache.GetMetadata', 'MetadataCache.isCacheValid', 'MetadataCache.Cleanup'],
 }
